@@ -204,54 +204,90 @@ pub fn check_state<T: HS>(tag: &str, inp: &Inputs<T>, st: usize, eps_stored: T, 
             out.eq(&format!("C02.residuals{tag}"), format!("r[{}]", col * n + i), r[col * n + i], yw[(i, col)] - fit);
         }
     }
-    // coefficients
+    // coefficients.  The specification must not inherit the code's rank decisions: every obligation that depends on
+    // which singular values count as non-zero carries that case as an explicit premise (`given`), and ALL cases are
+    // emitted; the cases that contradict the path condition are vacuous, every other one has to be proved.
     let full_rank;
     if let Some(pl) = &inp.plants[st] {
-        let keep = kept(&pl.sigma, eps_stored);
-        full_rank = keep.iter().all(|k| *k) && n >= m;
-        let cs = spec_coefficients(inp, pl, &keep);
-        out.eq_mat(&format!("C01.closed_form{tag}"), "C", c, &cs);
-        out.notes.push(format!("state {st}: kept singular values {:?}", keep));
-        // minimum norm: components along discarded right singular vectors vanish
-        for (l, k) in keep.iter().enumerate() {
-            if !*k {
+        let shadow_keep = kept(&pl.sigma, eps_stored);
+        full_rank = shadow_keep.iter().all(|k| *k) && n >= m;
+        out.notes.push(format!("state {st}: kept singular values (shadow) {:?}", shadow_keep));
+        let k = pl.sigma.len();
+        for mask in 0..(1usize << k) {
+            let keep: Vec<bool> = (0..k).map(|l| mask & (1 << l) != 0).collect();
+            let label: String = keep.iter().map(|b| if *b { '1' } else { '0' }).collect();
+            let name = format!("C01.closed_form{tag}[keep={label}]");
+            for l in 0..k {
+                out.given(&name, pl.sigma[l], if keep[l] { ">" } else { "<=" }, eps_stored);
+            }
+            let cs = spec_coefficients(inp, pl, &keep);
+            out.eq_mat(&name, "C", c, &cs);
+        }
+        let keep = shadow_keep;
+        // minimum norm / optimality in the retained subspace for the case of this run (premise: that case)
+        for (l, kflag) in keep.iter().enumerate() {
+            let name = if *kflag { format!("C01.retained_optimal{tag}") } else { format!("C01.min_norm{tag}") };
+            for l2 in 0..keep.len() {
+                out.given(&name, pl.sigma[l2], if keep[l2] { ">" } else { "<=" }, eps_stored);
+            }
+            if !*kflag {
                 for col in 0..s {
                     let mut acc = zero;
                     for j in 0..m {
                         acc = acc + pl.vt[(l, j)] * c[(j, col)];
                     }
-                    out.eq(&format!("C01.min_norm{tag}"), format!("v{l}.c{col}"), acc, zero);
+                    out.eq(&name, format!("v{l}.c{col}"), acc, zero);
                 }
             } else {
-                // optimality inside the retained subspace: u_l . r_s = 0
                 for col in 0..s {
                     let mut acc = zero;
                     for i in 0..n {
                         acc = acc + pl.u[(i, l)] * r[col * n + i];
                     }
-                    out.eq(&format!("C01.retained_optimal{tag}"), format!("u{l}.r{col}"), acc, zero);
+                    out.eq(&name, format!("u{l}.r{col}"), acc, zero);
                 }
             }
         }
     } else {
-        // real-svd tier (M = 1): rank decision from the shadow of ||A||
+        // real-svd tier (M = 1): the single singular value is ||A||; premise of the two cases: ||A||^2 > eps^2 or <= eps^2
+        let mut nrm2_t = zero;
         let mut nrm2 = 0.0;
         for i in 0..n {
             for j in 0..m {
                 nrm2 += a[(i, j)].peek() * a[(i, j)].peek();
+                nrm2_t = nrm2_t + a[(i, j)] * a[(i, j)];
             }
         }
         full_rank = m == 1 && nrm2.sqrt() > eps_stored.peek();
-        if !full_rank {
+        if m == 1 {
+            let name = format!("C01.min_norm{tag}");
+            out.given(&name, nrm2_t, "<=", eps_stored * eps_stored);
             for col in 0..s {
-                for j in 0..m {
-                    out.eq(&format!("C01.min_norm{tag}"), format!("c[{j},{col}]"), c[(j, col)], zero);
-                }
+                out.eq(&name, format!("c[0,{col}]"), c[(0, col)], zero);
             }
         }
     }
-    if full_rank {
+    // premises of the full-rank obligations (normal equations, Kaufman form, orthogonality)
+    let full_rank_premise: Vec<(T, &'static str, T)> = match &inp.plants[st] {
+        Some(pl) => pl.sigma.iter().map(|sg| (*sg, ">", eps_stored)).collect(),
+        None => {
+            let mut nrm2_t = zero;
+            for i in 0..n {
+                for j in 0..m {
+                    nrm2_t = nrm2_t + a[(i, j)] * a[(i, j)];
+                }
+            }
+            vec![(nrm2_t, ">", eps_stored * eps_stored)]
+        }
+    };
+    let can_be_full_rank = n >= m && (inp.plants[st].is_some() || m == 1);
+    let _ = full_rank;
+    if can_be_full_rank {
         // normal equations  A^T (W y_s - A c_s) = 0  <=> c_s minimises ||W(y_s - Phi c)||
+        let name = format!("C01.normal_eq{tag}");
+        for (x, op, y) in &full_rank_premise {
+            out.given(&name, *x, op, *y);
+        }
         for col in 0..s {
             for j in 0..m {
                 let mut acc = zero;
@@ -262,10 +298,11 @@ pub fn check_state<T: HS>(tag: &str, inp: &Inputs<T>, st: usize, eps_stored: T, 
                     }
                     acc = acc + a[(i, j)] * (yw[(i, col)] - fit);
                 }
-                out.eq(&format!("C01.normal_eq{tag}"), format!("(A^T r)[{j},{col}]"), acc, zero);
+                out.eq(&name, format!("(A^T r)[{j},{col}]"), acc, zero);
             }
         }
     }
+    let full_rank = can_be_full_rank;
     // Jacobian
     match &obs.jac {
         None => out.fact(&format!("C03.jacobian_present{tag}"), inp.states[st].deriv_fails.is_some(), "jacobian() is None although every derivative evaluates".into()),
@@ -287,6 +324,11 @@ pub fn check_state<T: HS>(tag: &str, inp: &Inputs<T>, st: usize, eps_stored: T, 
                             })
                             .collect();
                         if full_rank {
+                            for nm in [format!("C03.orthogonal{tag}"), format!("C03.kaufman{tag}")] {
+                                for (x, op, y) in &full_rank_premise {
+                                    out.given(&nm, *x, op, *y);
+                                }
+                            }
                             // orthogonality to range(A)
                             for j in 0..m {
                                 let mut acc = zero;
